@@ -45,6 +45,7 @@ namespace bxdecay0 {
 
   void Ba138low(i_random & /* prng_ */, event & /* event_ */, const int levelkev_)
   {
+    BXDECAY0_VERIF_SCOPE("scheme:Ba138low", levelkev_);
     // double t;
     // double tdlev;
     /// double tclev;
